@@ -45,7 +45,8 @@ THEOREMS = ["C20_sound", "C20_sound_general", "C20_ret_sound", "C20_caller_untou
             "C20_read", "C20_write", "C20_to_csv", "C20_adhoc", "C20_open_with_codecs", "C20_open_file",
             "C20_read_exec", "C20_write_exec", "C20_to_csv_exec",
             "C20_caller_untouched_write", "C20_caller_untouched_to_csv", "C20_no_other_open_sites",
-            "C20_api_returns_nothing", "C20_caller_untouched_write_exec", "C20_caller_untouched_to_csv_exec"]
+            "C20_api_returns_nothing", "C20_caller_untouched_write_exec", "C20_caller_untouched_to_csv_exec",
+            "C20_convert_version", "C20_convert_version_exec"]
 ASSUMPTIONS = [
     "translator completeness: every statement of the six functions that can raise is rendered as MayRaise/Open/Close "
     "(all statements other than assignments of names/constants are); NameError/MemoryError/KeyboardInterrupt between two "
@@ -81,6 +82,9 @@ class Injector:
         self.owned = []            # proxies for files lasio opened
         self.caller = []           # proxies for files the caller supplied
         self.events = []           # ("O"|"X"|"C", site or "caller"): open ok / open raised / close called
+        self.in_spy = 0            # >0 while one of the instrumented constructors performs the real open
+        self.raw_opens = []        # (site, path) of OS-level opens made by lasio code NOT through an instrumented
+                                   # constructor (seen by the audit hook only: no proxy, no fault injection)
 
     def tick(self, name):
         """count one low-level operation; True if the fault is due at it"""
@@ -98,6 +102,7 @@ class Injector:
 INJ = Injector()
 _REAL_OPEN = builtins.open
 _REAL_IO_OPEN = io.open
+_REAL_FILEIO = io.FileIO
 
 
 class FileProxy(object):
@@ -161,22 +166,78 @@ class FileProxy(object):
             "open" if self._is_open() else "closed")
 
 
+_REAL_CACHE = {}
+
+
+def _real(fn):
+    r = _REAL_CACHE.get(fn)
+    if r is None:
+        r = _REAL_CACHE[fn] = os.path.realpath(fn)
+    return r
+
+
 def _site_of(frame):
-    fn = os.path.realpath(frame.f_code.co_filename)
+    fn = _real(frame.f_code.co_filename)
     if fn.startswith(LASIO_DIR):
         return ("lasio/" + fn[len(LASIO_DIR):], frame.f_lineno)
+    return None
+
+
+# Standard-library wrappers that open a file ON BEHALF of their caller: an open performed inside one of them is
+# attributed to the nearest enclosing lasio frame (codecs.open, Path.open, os.fdopen, gzip.open, zipfile.ZipFile,
+# tempfile.NamedTemporaryFile, ... called from lasio code).  Anything else between the open and a lasio frame
+# (importlib, linecache/traceback, logging, numpy, chardet, urllib, openpyxl, csv) is that library's own business.
+_STDLIB_DIR = os.path.dirname(os.path.realpath(os.__file__))
+_SEE_THROUGH_FILES = {"codecs.py", "pathlib.py", "gzip.py", "bz2.py", "lzma.py", "tarfile.py", "tempfile.py", "os.py",
+                      "io.py", "_pyio.py", "shutil.py", "fileinput.py", "_compression.py", "contextlib.py"}
+_SEE_THROUGH_FROZEN = {"<frozen codecs>", "<frozen os>", "<frozen io>"}
+_SEE_THROUGH_PKGS = ("zipfile", "pathlib")
+
+
+def _see_through(filename):
+    if filename in _SEE_THROUGH_FROZEN:
+        return True
+    if filename.startswith("<"):
+        return False
+    fn = _real(filename)
+    d, b = os.path.split(fn)
+    if d == _STDLIB_DIR:
+        return b in _SEE_THROUGH_FILES
+    return any(d == os.path.join(_STDLIB_DIR, p) or d.startswith(os.path.join(_STDLIB_DIR, p) + os.sep)
+               for p in _SEE_THROUGH_PKGS)
+
+
+_THIS_FILE = os.path.realpath(__file__)
+
+
+def _lasio_site(frame):
+    """the lasio source line an open is attributed to: the nearest frame in a lasio file, looking through frames of
+    this module and of the standard-library wrappers only; None = not lasio's open"""
+    f = frame
+    while f is not None:
+        site = _site_of(f)
+        if site is not None:
+            return site
+        fn = f.f_code.co_filename
+        if not (_see_through(fn) or _real(fn) == _THIS_FILE):
+            return None
+        f = f.f_back
     return None
 
 
 def _spy_open(*a, **k):
     if not INJ.active:
         return _REAL_OPEN(*a, **k)
-    site = _site_of(sys._getframe(1))
+    site = _lasio_site(sys._getframe(1))
     if site is None:
         return _REAL_OPEN(*a, **k)          # not opened by lasio (numpy, chardet, logging, ...)
     try:
         INJ.op("open")
-        f = _REAL_OPEN(*a, **k)
+        INJ.in_spy += 1
+        try:
+            f = _REAL_OPEN(*a, **k)
+        finally:
+            INJ.in_spy -= 1
     except BaseException:
         INJ.events.append(("X", site))
         raise
@@ -186,15 +247,121 @@ def _spy_open(*a, **k):
     return p
 
 
+class SpyFileIO(io.FileIO):
+    """io.FileIO while a scenario runs: a real FileIO (isinstance keeps working) that, when constructed from lasio
+    code, is tracked and fault-injected like the proxies of open()."""
+    _owner = "lasio"
+
+    def __init__(self, *a, **k):
+        self._c20_site = None
+        site = _lasio_site(sys._getframe(1)) if INJ.active else None
+        if site is None:
+            _REAL_FILEIO.__init__(self, *a, **k)
+            return
+        try:
+            INJ.op("open")
+            INJ.in_spy += 1
+            try:
+                _REAL_FILEIO.__init__(self, *a, **k)
+            finally:
+                INJ.in_spy -= 1
+        except BaseException:
+            INJ.events.append(("X", site))
+            raise
+        self._c20_site = site
+        INJ.events.append(("O", site))
+        INJ.owned.append(self)
+
+    # the interface run_one() uses on the members of INJ.owned
+    @property
+    def _site(self):
+        return self._c20_site
+
+    @property
+    def _f(self):
+        return self
+
+    def _is_open(self):
+        return not self.closed
+
+    def _c20_mine(self):
+        return INJ.active and getattr(self, "_c20_site", None) is not None
+
+    def close(self):
+        due = False
+        if self._c20_mine():
+            due = INJ.tick("close")
+            INJ.events.append(("C", self._c20_site))
+        _REAL_FILEIO.close(self)
+        if due:
+            raise OSError(errno.EIO, "injected fault at low-level operation %d (close)" % INJ.ops)
+
+
+def _counted_method(name):
+    real = getattr(_REAL_FILEIO, name)
+
+    def method(self, *a, **k):
+        if self._c20_mine():
+            INJ.op(name)
+        return real(self, *a, **k)
+    method.__name__ = name
+    return method
+
+
+for _n in ("read", "readall", "readinto", "write", "seek", "tell", "truncate"):
+    setattr(SpyFileIO, _n, _counted_method(_n))
+
+
+_HOOK = {"installed": False}
+
+
+def _audit_hook(event, args):
+    """every OS-level open (builtins.open, io.open, io.FileIO, os.open, os.fdopen, codecs.open, Path.open, tempfile,
+    gzip, ...) raises the audit event "open" whatever the Python-level name it was reached by; the ones lasio code
+    makes without going through an instrumented constructor are recorded"""
+    if event != "open" or not INJ.active or INJ.in_spy:
+        return
+    try:
+        site = _lasio_site(sys._getframe(1))
+        if site is not None:
+            INJ.raw_opens.append((site, args[0] if args else None))
+    except Exception:
+        pass
+
+
+def _install_hook():
+    if not _HOOK["installed"]:
+        sys.addaudithook(_audit_hook)       # cannot be removed; inert unless INJ.active
+        _HOOK["installed"] = True
+
+
+def _fd_table():
+    """{fd: target} of this process (None where /proc is not available)"""
+    try:
+        names = os.listdir("/proc/self/fd")
+    except OSError:
+        return None
+    t = {}
+    for n in names:
+        try:
+            t[int(n)] = os.readlink("/proc/self/fd/" + n)
+        except (OSError, ValueError):
+            pass                            # the descriptor used for the listing itself
+    return t
+
+
 class patched_open(object):
     def __enter__(self):
+        _install_hook()
         builtins.open = _spy_open
         io.open = _spy_open
+        io.FileIO = SpyFileIO
         return self
 
     def __exit__(self, *exc):
         builtins.open = _REAL_OPEN
         io.open = _REAL_IO_OPEN
+        io.FileIO = _REAL_FILEIO
         return False
 
 
@@ -281,13 +448,47 @@ def las_object(kind="plain"):
 
 # scenario table: name -> (call kind, function skeleton, builder).  A builder takes the temp dir
 # and returns (las_or_None, thunk); the thunk performs exactly one lasio call.
-def _rd(fname, as_path=False, **kw):
+def _rd(fname, as_path=False, fobj=False, **kw):
     def build(d):
         import lasio
         las = lasio.LASFile()
         p = os.path.join(d, fname)
-        ref = pathlib.Path(p) if as_path else p
+        ref = caller_file(p, "r") if fobj else (pathlib.Path(p) if as_path else p)
         return las, (lambda: las.read(ref, **kw))
+    return build
+
+
+def _top(fname, how="read", as_path=False, fobj=False, **kw):
+    """the package-level entry points: lasio.read(ref) and lasio.LASFile(ref) (las.read is reached through
+    LASFile.__init__); the object under construction is found in the result or in the traceback"""
+    def build(d):
+        import lasio
+        p = os.path.join(d, fname)
+        if fobj:
+            ref = caller_file(p, "r")
+        else:
+            ref = pathlib.Path(p) if as_path else p
+        if how == "read":
+            return None, (lambda: lasio.read(ref, **kw))
+        return None, (lambda: lasio.LASFile(ref, **kw))
+    return build
+
+
+def _cv(fname, target="out.las", *flags):
+    """the command-line converter lasio.convert_version.convert_version (the one open site of the package outside
+    las.py / reader.py)"""
+    def build(d):
+        import lasio.convert_version as cv
+        argv = ["convert_version"] + list(flags) + [os.path.join(d, fname), os.path.join(d, target)]
+
+        def thunk():
+            old = sys.argv
+            sys.argv = argv
+            try:
+                return cv.convert_version()
+            finally:
+                sys.argv = old
+        return None, thunk
     return build
 
 
@@ -327,6 +528,12 @@ SCENARIOS = [
     ("read(path str)", "read", "read_str_text_curve", _rd("text_curve.las")),
     ("read(pathlib.Path)", "read", "read_path", _rd("plain.las", as_path=True)),
     ("read(pathlib.Path)", "read", "read_path_wrapped", _rd("wrapped.las", as_path=True)),
+    # the same call kinds through the package-level entry points (lasio.read -> LASFile.__init__ -> LASFile.read)
+    ("lasio.read(path str)", "read", "top_read_str", _top("plain.las")),
+    ("lasio.read(pathlib.Path)", "read", "top_read_path", _top("plain.las", as_path=True)),
+    ("lasio.LASFile(path str)", "read", "top_lasfile_str", _top("wrapped.las", how="LASFile")),
+    ("lasio.read(file object)", "read", "top_read_fobj", _top("plain.las", fobj=True)),
+    ("read(file object)", "read", "read_fobj", _rd("plain.las", fobj=True)),
     ("write(path)", "write", "write_path", _wr("plain")),
     ("write(path)", "write", "write_path_v12", _wr("plain", version=1.2)),
     ("write(path)", "write", "write_path_wrap", _wr("plain", wrap=True)),
@@ -349,6 +556,9 @@ SCENARIOS = [
      _rd("latin1.las", encoding="utf-8", encoding_errors="strict", engine="normal")),
     ("read: LASF lidar file", "read", "fail_lidar", _rd("lidar.las")),
     ("read: missing file", "read", "fail_missing_file", _rd("does_not_exist.las")),
+    ("lasio.read: header error", "read", "fail_top_header_error", _top("hdrerror.las")),
+    ("lasio.LASFile: no ~ sections", "read", "fail_top_lasfile_no_sections", _top("nosections.las", how="LASFile")),
+    ("lasio.read: missing file", "read", "fail_top_missing_file", _top("does_not_exist.las")),
     ("write: missing VERS", "write", "fail_write_missing_vers", _wr("no_vers")),
     ("write: bad version=", "write", "fail_write_bad_version", _wr("plain", version=3)),
     ("write: header-only file", "write", "fail_write_header_only", _wr("header_only")),
@@ -356,6 +566,9 @@ SCENARIOS = [
     ("to_csv: bad csv kwarg", "to_csv", "fail_to_csv_bad_kwarg", _csv("plain", bogus=1)),
     ("to_csv(path)", "to_csv", "to_csv_no_curves", _csv("empty")),
     ("to_csv(path)", "to_csv", "to_csv_header_only", _csv("header_only")),
+    # the converter script: read(path) + open(output) + write(file object)
+    ("convert_version(in, out)", "convert_version", "convert_version", _cv("plain.las")),
+    ("convert_version: header error", "convert_version", "fail_convert_version_hdr", _cv("hdrerror.las")),
 ]
 # used by search() only (after a proof/tie broke)
 EXTRA_SCENARIOS = [
@@ -370,7 +583,7 @@ SC_BY_NAME = {s[2]: s for s in SCENARIOS + EXTRA_SCENARIOS}
 
 # ---------------------------------------------------------------------------------------
 def reachable_open_handles(root, limit=200000):
-    """open FileProxy objects reachable from root (the LASFile object)"""
+    """open file objects (proxies, or real io objects) reachable from root (the LASFile object)"""
     seen = set()
     todo = [root]
     found = []
@@ -381,9 +594,17 @@ def reachable_open_handles(root, limit=200000):
         if id(o) in seen:
             continue
         seen.add(id(o))
-        if isinstance(o, FileProxy):
+        if isinstance(o, (FileProxy, SpyFileIO)):
             if o._is_open():
                 found.append(o)
+            continue
+        if isinstance(o, io.IOBase):
+            # a real OS-level file object that is not one of the proxies (opened through an API that is not instrumented)
+            try:
+                if not o.closed and o.fileno() > 2:
+                    found.append(o)
+            except Exception:
+                pass
             continue
         if isinstance(o, skip):
             continue
@@ -401,9 +622,28 @@ class Outcome:
     pass
 
 
+def _las_objects_of(exc):
+    """LASFile objects that are `self` in a frame of the exception's traceback (lasio.read(..) / LASFile(..) raised:
+    the object under construction is not returned, but whoever holds the exception still reaches it)"""
+    import lasio
+    out = []
+    seen = set()
+    e = exc
+    while e is not None and id(e) not in seen:
+        seen.add(id(e))
+        tb = e.__traceback__
+        while tb is not None:
+            o = tb.tb_frame.f_locals.get("self")
+            if isinstance(o, lasio.LASFile) and all(o is not x for x in out):
+                out.append(o)
+            tb = tb.tb_next
+        e = e.__cause__ or e.__context__
+    return out
+
+
 def run_one(d, name, k):
     """one execution of scenario `name` with the fault at operation k (k=0: no fault)"""
-    _, fn, _, builder = SC_BY_NAME[name]
+    kind, fn, _, builder = SC_BY_NAME[name]
     out = Outcome()
     INJ.reset(k if k else None)
     INJ.active = False
@@ -414,10 +654,12 @@ def run_one(d, name, k):
             pass
     las, thunk = builder(d)
     exc = None
+    ret = None
+    fds_before = _fd_table()
     with patched_open():
         INJ.active = True
         try:
-            thunk()
+            ret = thunk()
         except BaseException as e:      # kept alive (with its traceback and frames) while we inspect
             if isinstance(e, (KeyboardInterrupt, SystemExit)):
                 INJ.active = False
@@ -425,22 +667,63 @@ def run_one(d, name, k):
             exc = e
         finally:
             INJ.active = False
+    fds_after = _fd_table()
     out.ops = INJ.ops
     out.fired = INJ.fired
     out.exc = type(exc).__name__ if exc is not None else None
     out.exc_text = (str(exc)[:120] if exc is not None else "")
     out.leaked = [p for p in INJ.owned if p._is_open()]
     out.caller_closed = [p for p in INJ.caller if not p._is_open()]
-    out.held = reachable_open_handles(las) if las is not None else []
+    roots = [las] if las is not None else []
+    if las is None:
+        import lasio
+        if isinstance(ret, lasio.LASFile):
+            roots.append(ret)
+        if exc is not None:
+            roots.extend(_las_objects_of(exc))
+    out.held = [h for r in roots for h in reachable_open_handles(r)]
     out.events = list(INJ.events)
-    out.sites = sorted({p._site for p in INJ.owned} | {e[1] for e in INJ.events if e[1] != "caller"})
+    out.raw_opens = list(INJ.raw_opens)
+    # descriptors that appeared during the call and are still there, whatever API opened them: the ones that are not
+    # the descriptor of a tracked proxy and that point into the scenario directory or at a path lasio code opened
+    out.raw_leaked = []
+    if fds_before is not None and fds_after is not None:
+        known = set()
+        for p_ in INJ.owned + INJ.caller:
+            try:
+                known.add(p_._f.fileno())
+            except Exception:
+                pass
+        rd = os.path.realpath(d) + os.sep
+        raw_paths = set()
+        for _, pth in out.raw_opens:
+            try:
+                raw_paths.add(os.path.realpath(os.fspath(pth)))
+            except Exception:
+                pass
+        for fd, target in sorted(fds_after.items()):
+            if fds_before.get(fd) == target or fd in known:
+                continue
+            t = target[:-10] if target.endswith(" (deleted)") else target
+            if t.startswith(rd) or t in raw_paths:
+                out.raw_leaked.append((fd, target))
+    out.sites = sorted({p._site for p in INJ.owned} | {e[1] for e in INJ.events if e[1] != "caller"}
+                       | {s_ for s_, _ in out.raw_opens})
     out.leaked_sites = sorted({p._site for p in out.leaked})
     out.problems = []
     if out.leaked:
         out.problems.append("handle(s) opened by lasio still open after the call %s: %s" % (
             "raised " + out.exc if out.exc else "returned",
             ", ".join("%s:%d" % s for s in out.leaked_sites)))
-    if out.caller_closed:
+    if out.raw_leaked:
+        out.problems.append("file descriptor(s) opened during the call are still open after it %s: %s%s" % (
+            "raised " + out.exc if out.exc else "returned",
+            ", ".join("fd %d -> %s" % x for x in out.raw_leaked),
+            (" (lasio opened, not through open()/io.open()/io.FileIO: %s)" % ", ".join(
+                "%s:%d" % s_ for s_ in sorted({s_ for s_, _ in out.raw_opens}))) if out.raw_opens else ""))
+    # the property leaves caller-supplied file objects open for write()/to_csv(); read() is documented to close the
+    # file object it is given (Props/C20.v C20_ex_read_closes_caller_object)
+    if out.caller_closed and fn in ("write", "to_csv"):
         out.problems.append("file object supplied by the caller was closed by lasio")
     if out.held:
         out.problems.append("the LASFile object still holds an open handle: %r" % (out.held[0],))
@@ -450,7 +733,9 @@ def run_one(d, name, k):
             p._f.close()
         except Exception:
             pass
-    del exc
+    del exc, ret, roots
+    if out.raw_opens or out.raw_leaked:
+        gc.collect()                    # unreferenced real file objects close themselves before the next run's snapshot
     return out
 
 
@@ -472,6 +757,7 @@ Definition skel_of (s : list N) : option (stmt * list nat) :=
   else if str_eqb s (s2l "adhoc") then Some (skel_adhoc, rets_adhoc)
   else if str_eqb s (s2l "open_with_codecs") then Some (skel_open_with_codecs, rets_open_with_codecs)
   else if str_eqb s (s2l "open_file") then Some (skel_open_file, rets_open_file)
+  else if str_eqb s (s2l "convert_version") then Some (skel_convert_version, rets_convert_version)
   else None.
 Definition nat_of_str (s : list N) : nat := N.to_nat (fold_left (fun a c => 10 * a + (c - 48)) s 0).
 Definition hids (s : list N) : list nat :=
@@ -533,7 +819,7 @@ def enumerate_all(d, ctx, res, scenarios=None):
     """runs every (scenario, k); returns bookkeeping used by run() and search()"""
     import skeleton
     stats = {"per_kind": {}, "fired": set(), "cases": 0, "leaks": {}, "caller_closed": {}, "sites": set(),
-             "exhaustive": True, "observed": set(), "unexpected": [], "traces": {}}
+             "exhaustive": True, "observed": set(), "unexpected": [], "traces": {}, "uninstrumented": {}}
     for kind, fn, name, _ in (SCENARIOS if scenarios is None else scenarios):
         clean = run_one(d, name, 0)
         stats["cases"] += 1
@@ -557,10 +843,13 @@ def enumerate_all(d, ctx, res, scenarios=None):
                 # the run took a different path and finished before reaching operation k
                 pass
             stats["sites"].update(o.sites)
+            for site, pth in o.raw_opens:
+                stats["uninstrumented"].setdefault(site, (name, k, repr(pth)[:80]))
+                stats["exhaustive"] = False
             leaked_h = tuple(sorted(o.leaked_sites))
             stats["observed"].add((fn, "raise" if o.exc else "return", leaked_h))
             stats["traces"].setdefault((fn, "raise" if o.exc else "return", tuple(o.events), bool(o.leaked)), (name, k))
-            if o.leaked:
+            if o.leaked or o.raw_leaked:
                 stats["leaks"].setdefault(fn, []).append((name, k))
             if o.caller_closed:
                 stats["caller_closed"].setdefault(fn, []).append((name, k))
@@ -606,7 +895,7 @@ def run(ctx):
         terr = None
     except Exception as e:           # translator failed: reported by the build as well
         site_table, terr = {}, repr(e)
-    for fn in ("read", "write", "to_csv"):
+    for fn in ("read", "write", "to_csv", "convert_version"):
         leaked = bool(stats["leaks"].get(fn))
         add(lib.fields("leak_free", fn), "F" if leaked else "T",
             "leak_free skel_%s vs observed (%s)" % (fn, "leak at %r" % (stats["leaks"][fn][:2],) if leaked else "no leak in any run"))
@@ -632,7 +921,7 @@ def run(ctx):
         hid = site_table.get((rel, line))
         add(lib.fields("site", "%s:%d" % (rel, line)), "NOT-A-TRANSLATED-OPEN-SITE" if hid is None else str(hid),
             "observed open at %s:%d is a translated open site" % (rel, line))
-    add(lib.fields("others", ""), "0", "no other open site in modules reachable from las.py")
+    add(lib.fields("others", ""), "0", "no opener call / opener alias anywhere in the lasio package outside the translated functions")
     for (fn, ex, ls) in sorted(stats["observed"]):
         hs = []
         for s in ls:
@@ -644,10 +933,18 @@ def run(ctx):
         var_hid = skeleton.variable_hids(REPO)
     except Exception:
         var_hid = {}
+    try:
+        caller_hid = skeleton.caller_object_hids(REPO)
+    except Exception:
+        caller_hid = {}
     for (fn, ex, evs, leaked), (name, k) in sorted(stats["traces"].items(), key=lambda kv: (kv[1], kv[0][1])):
         toks = []
         for kind_, site in evs:
-            h = var_hid.get((fn, "file_ref")) if site == "caller" else site_table.get(site)
+            if fn == "convert_version" and (site == "caller" or site[0] != "lasio/convert_version.py"):
+                # skel_convert_version renders `lasio.read(..)` and `las.write(f, ..)` as MayRaise (calls of functions
+                # proved leak-free on their own): their events are checked in the read / write scenarios
+                continue
+            h = caller_hid.get(fn, var_hid.get((fn, "file_ref"))) if site == "caller" else site_table.get(site)
             toks.append("%s%s" % (kind_, 999 if h is None else h))
         add(lib.fields("trace", fn, ex, ",".join(toks)), "T" + ("F" if leaked else "T"),
             "skel_%s has a run with the events %s ending in %s, and that run ends %s (first seen: %s, k=%d)" % (
@@ -659,6 +956,15 @@ def run(ctx):
             res.mismatches.append({"case": cases[i][0].replace(lib.FS, "|"), "expected": cases[i][1], "what": labels[i]})
     else:
         res.corr_error = "model not built" + (" (translator: %s)" % terr if terr else "")
+    # an OS-level open made by lasio code that did not go through an instrumented constructor: the audit hook saw it,
+    # but there is no proxy — no fault can be injected into that handle's operations and only the descriptor table
+    # says whether it was closed.  The enumeration is then not what `rule` claims: reported as a broken tie.
+    for site, (name, k, pth) in sorted(stats["uninstrumented"].items()):
+        res.mismatches.append({"case": "open at %s:%d (scenario %s, k=%d, %s)" % (site[0], site[1], name, k, pth),
+                               "expected": "every file lasio opens is opened through builtins.open / io.open / io.FileIO "
+                                           "(directly or inside codecs/pathlib/gzip/zipfile/os.fdopen), where faults are injected",
+                               "what": "lasio opened a file through an API the fault injector does not instrument; "
+                                       "the fault enumeration does not cover that handle"})
     res.cases = stats["cases"]
     res.distinct_nontrivial = len(stats["fired"])
     res.rule = ("every scenario (call kind x input/failure class) is executed once cleanly and once per k = 1..N with an "
